@@ -2,10 +2,10 @@
   C12 — Projection views transform, cast or reinterpret exactly element by element.
 
   Property theorems only (helpers in CastLemmas).  Setting: a typed view `t : TView` (element size `esz`, byte
-  origin, positions) whose layout is well formed and ZERO-BASED.  Zero-basedness is a hypothesis because the code
-  asserts it: `layout_t::scale` has `assert(offset_ == 0)` (layout.hpp:987, "TODO implement"), so `member_cast`
-  and `reinterpret_array_cast` are only defined on views whose every level has offset 0; the other assertion of
-  `scale`, `(stride_*num) % den == 0`, is the hypothesis `ScaleDiv` (implied by `sizeof(T2) ∣ sizeof(T)`).
+  origin, positions) whose layout is well formed — ANY index bases: since the fix "member_cast / reinterpret_array_cast on
+  views with non-zero index bases scale the offset" `layout_t::scale` multiplies the offset too and asserts
+  `(stride_*num) % den == 0` (hypothesis `ScaleDiv`, implied by `sizeof(T2) ∣ sizeof(T)`) and `(offset_*num) % den == 0`
+  (a consequence on well-formed views, `scaleDivOff_of_wf`).  Address statements are for index tuples of the view's box.
 
     * `member_cast_addr`        member_cast designates exactly the named member of each element
     * `reinterpret_addr`        reinterpret_array_cast<U>() reinterprets each element in place
@@ -39,73 +39,75 @@ def Cast.shift : Cast → Int
   | .member _ o => o
   | _ => 0
 
-/-- what the code demands of the operand: its `static_assert`s and the two assertions of `layout_t::scale` -/
+/-- what the code demands of the operand: its `static_assert`s and the stride assertion of `layout_t::scale` (the offset
+    assertion follows on well-formed views, `scaleDivOff_of_wf`) -/
 def Cast.Admissible : Cast → TView → Prop
   | .same, _ => True
-  | .member s _, t => 0 < s ∧ s ∣ t.esz ∧ ZeroOff t.v.lay
-  | .reinterpret s, t => 0 < s ∧ ScaleDiv t.v.lay t.esz s ∧ ZeroOff t.v.lay
+  | .member s _, t => 0 < s ∧ s ∣ t.esz
+  | .reinterpret s, t => 0 < s ∧ ScaleDiv t.v.lay t.esz s
 
 theorem byteAddr_eq (t : TView) (idx : List Int) : t.byteAddr idx = t.ptr + t.esz * t.v.lay.off idx := by
   simp only [TView.byteAddr, TView.ptr, addr_eq, Int.mul_add, Int.add_assoc]
 
-/-- common core: a view over the scaled layout at the same pointer designates the same bytes -/
+/-- common core: a view over the scaled layout at the same pointer designates the same bytes (any index base) -/
 theorem scaled_view (t : TView) (s p : Int) (hesz : 0 < t.esz) (hs : 0 < s) (hwf : t.v.lay.WF)
-    (hz : ZeroOff t.v.lay) (hd : ScaleDiv t.v.lay t.esz s) :
+    (hd : ScaleDiv t.v.lay t.esz s) :
     let r : TView := ⟨s, p, ⟨0, t.v.lay.scale t.esz s⟩⟩
-    r.v.lay.WF ∧ r.exts = t.exts ∧ ZeroOff r.v.lay ∧ ∀ idx, r.byteAddr idx = p + t.esz * t.v.lay.off idx := by
+    r.v.lay.WF ∧ r.exts = t.exts ∧ ∀ idx, InBox t.exts idx → r.byteAddr idx = p + t.esz * t.v.lay.off idx := by
   intro r
-  obtain ⟨w1, w2, w3⟩ := scale_wf t.v.lay t.esz s hwf hz hd hesz hs
-  refine ⟨w1, w2, w3, ?_⟩
-  intro idx
-  have := scale_off t.v.lay t.esz s idx hz hd
+  obtain ⟨w1, w2⟩ := scale_wf t.v.lay t.esz s hwf hd hesz hs
+  refine ⟨w1, w2, ?_⟩
+  intro idx hidx
+  have := scale_off t.v.lay t.esz s idx hwf hd hesz hs hidx
   simp only [r, TView.byteAddr, addr_eq, Int.zero_add]
   rw [this]
 
-/-- **member_cast.** For `sizeof(T2) ∣ sizeof(T)` and a zero-based well-formed view: the result is a well-formed view
-    with the source's extents whose element at every index tuple is the object at byte displacement `off` (the
-    member) inside the source element at the same index tuple. -/
+/-- **member_cast.** For `sizeof(T2) ∣ sizeof(T)` and ANY well-formed view (arbitrary index bases, strides, sub-blocks):
+    the result is a well-formed view with the source's extents, the code's assertions hold, and its element at every
+    index tuple is the object at byte displacement `off` (the member) inside the source element at the same index tuple. -/
 theorem member_cast_addr (t : TView) (sT2 off : Int) (hesz : 0 < t.esz) (hs : 0 < sT2) (hdvd : sT2 ∣ t.esz)
-    (hwf : t.v.lay.WF) (hz : ZeroOff t.v.lay) :
+    (hwf : t.v.lay.WF) :
     (t.memberCast sT2 off).v.lay.WF ∧ (t.memberCast sT2 off).exts = t.exts ∧ (t.memberCast sT2 off).esz = sT2 ∧
     t.memberCastAsserts sT2 = true ∧
-    ∀ idx, (t.memberCast sT2 off).byteAddr idx = t.byteAddr idx + off := by
+    ∀ idx, InBox t.exts idx → (t.memberCast sT2 off).byteAddr idx = t.byteAddr idx + off := by
   have hd : ScaleDiv t.v.lay t.esz sT2 := scaleDiv_of_dvd _ hdvd
-  obtain ⟨a1, a2, _, a4⟩ := scaled_view t sT2 (t.ptr + off) hesz hs hwf hz hd
+  have hdo : ScaleDivOff t.v.lay t.esz sT2 := scaleDivOff_of_dvd _ hdvd
+  obtain ⟨a1, a2, a4⟩ := scaled_view t sT2 (t.ptr + off) hesz hs hwf hd
   refine ⟨a1, a2, rfl, ?_, ?_⟩
   · simp only [TView.memberCastAsserts, Layout.scaleAsserts, Bool.and_eq_true, decide_eq_true_eq, List.all_eq_true,
       beq_iff_eq]
     refine ⟨Int.emod_eq_zero_of_dvd hdvd |> fun h => by rw [Int.tmod_eq_emod_of_nonneg (by omega)]; exact h, ?_⟩
     intro d hdm
-    refine ⟨?_, hz d hdm⟩
-    exact Int.tmod_eq_zero_of_dvd (hd d hdm)
-  · intro idx
-    have := a4 idx
+    exact ⟨Int.tmod_eq_zero_of_dvd (hd d hdm), Int.tmod_eq_zero_of_dvd (hdo d hdm)⟩
+  · intro idx hidx
+    have := a4 idx hidx
     simp only [TView.memberCast] at this ⊢
     rw [this, byteAddr_eq]; omega
 
-/-- **reinterpret_array_cast<U>().** Under the assertions of `scale`: same extents, and the element at every index
-    tuple starts at the same byte as the source element (it is the source element's storage read as `U`). -/
+/-- **reinterpret_array_cast<U>().** Under the stride assertion of `scale`, for any well-formed view: same extents, and
+    the element at every index tuple starts at the same byte as the source element (it is the source element's storage read
+    as `U`); the offset assertion holds as soon as no level is empty; the D = 1 `const&` overload is the same view. -/
 theorem reinterpret_addr (t : TView) (sU : Int) (hesz : 0 < t.esz) (hs : 0 < sU)
-    (hwf : t.v.lay.WF) (hz : ZeroOff t.v.lay) (hd : ScaleDiv t.v.lay t.esz sU) :
+    (hwf : t.v.lay.WF) (hd : ScaleDiv t.v.lay t.esz sU) :
     (t.reinterpret sU).v.lay.WF ∧ (t.reinterpret sU).exts = t.exts ∧ (t.reinterpret sU).esz = sU ∧
-    t.reinterpretAsserts sU = true ∧
-    (∀ idx, (t.reinterpret sU).byteAddr idx = t.byteAddr idx) ∧
-    -- the D = 1 `const&` overload (which scales the offset instead of asserting it) agrees on zero-based views
+    ((∀ d ∈ t.v.lay, d.nelems ≠ 0) → t.reinterpretAsserts sU = true) ∧
+    (∀ idx, InBox t.exts idx → (t.reinterpret sU).byteAddr idx = t.byteAddr idx) ∧
     t.reinterpret1 sU = t.reinterpret sU := by
-  obtain ⟨a1, a2, _, a4⟩ := scaled_view t sU t.ptr hesz hs hwf hz hd
+  obtain ⟨a1, a2, a4⟩ := scaled_view t sU t.ptr hesz hs hwf hd
   refine ⟨a1, a2, rfl, ?_, ?_, ?_⟩
-  · simp only [TView.reinterpretAsserts, Layout.scaleAsserts, List.all_eq_true, Bool.and_eq_true, beq_iff_eq]
+  · intro hne
+    have hdo := scaleDivOff_of_wf t.v.lay t.esz sU hwf hne hd
+    simp only [TView.reinterpretAsserts, Layout.scaleAsserts, List.all_eq_true, Bool.and_eq_true, beq_iff_eq]
     intro d hdm
-    exact ⟨Int.tmod_eq_zero_of_dvd (hd d hdm), hz d hdm⟩
-  · intro idx
-    have := a4 idx
+    exact ⟨Int.tmod_eq_zero_of_dvd (hd d hdm), Int.tmod_eq_zero_of_dvd (hdo d hdm)⟩
+  · intro idx hidx
+    have := a4 idx hidx
     simp only [TView.reinterpret] at this ⊢
     rw [this, byteAddr_eq]
   · unfold TView.reinterpret1
     split
     · rename_i d hl
-      have : d.offset = 0 := hz d (by rw [hl]; simp)
-      simp [TView.reinterpret, hl, Layout.scale, this]
+      simp [TView.reinterpret, hl, Layout.scale]
     · rfl
 
 /-- **reinterpret_array_cast<U>(n).** The result has the source's extents followed by `[0, n)`; the element at
@@ -113,13 +115,13 @@ theorem reinterpret_addr (t : TView) (sU : Int) (hesz : 0 < t.esz) (hs : 0 < sU)
     `sizeof(T) == sizeof(U)*n` those `n` objects tile exactly the source element's bytes.  The D = 1 overload
     (which rotates the view instead of the layout) yields the same view. -/
 theorem reinterpret_n_addr (t : TView) (sU n : Int) (hesz : 0 < t.esz) (hs : 0 < sU) (hn : 0 ≤ n)
-    (hwf : t.v.lay.WF) (hz : ZeroOff t.v.lay) (hd : ScaleDiv t.v.lay t.esz sU) :
+    (hwf : t.v.lay.WF) (hd : ScaleDiv t.v.lay t.esz sU) :
     (t.reinterpretN sU n).v.lay.WF ∧ (t.reinterpretN sU n).exts = t.exts ++ [⟨0, n⟩] ∧
-    (∀ idx j, idx.length = t.v.lay.length →
+    (∀ idx j, InBox t.exts idx →
       (t.reinterpretN sU n).byteAddr (idx ++ [j]) = t.byteAddr idx + j * sU) ∧
     (t.esz = sU * n → ∀ j, 0 ≤ j → j < n → 0 ≤ j * sU ∧ j * sU + sU ≤ t.esz) ∧
     t.reinterpretN1 sU n = t.reinterpretN sU n := by
-  obtain ⟨a1, a2, _, a4⟩ := scaled_view t sU t.ptr hesz hs hwf hz hd
+  obtain ⟨a1, a2, _⟩ := scaled_view t sU t.ptr hesz hs hwf hd
   have hrot : Layout.rotate (⟨1, 0, n⟩ :: t.v.lay.scale t.esz sU) = t.v.lay.scale t.esz sU ++ [⟨1, 0, n⟩] := rotate_cons _ _
   have hdim : (⟨1, 0, n⟩ : Dim).WF ∧ (⟨1, 0, n⟩ : Dim).ext = ⟨0, n⟩ := by
     by_cases h0 : n = 0
@@ -138,10 +140,12 @@ theorem reinterpret_n_addr (t : TView) (sU n : Int) (hesz : 0 < t.esz) (hs : 0 <
     have : (t.v.lay.scale t.esz sU).exts = t.v.lay.exts := a2
     simp only [Layout.exts] at this
     rw [this]
-  · intro idx j hlen
+  · intro idx j hidx
+    have hlen : idx.length = t.v.lay.length := by
+      have := inBox_length hidx; simpa [TView.exts, View.exts, Layout.exts] using this
     simp only [TView.reinterpretN, TView.byteAddr, addr_eq, hrot, Int.zero_add]
     rw [off_append _ _ _ _ (by rw [scale_length]; exact hlen)]
-    have := scale_off t.v.lay t.esz sU idx hz hd
+    have := scale_off t.v.lay t.esz sU idx hwf hd hesz hs hidx
     rw [Int.mul_add, this]
     simp only [TView.ptr]
     grind
@@ -162,17 +166,17 @@ theorem same_cast_identity (t : TView) :
 /-- uniform description of the same-rank casts -/
 theorem cast_denotes (c : Cast) (t : TView) (hesz : 0 < t.esz) (hwf : t.v.lay.WF) (hc : c.Admissible t) :
     (c.apply t).v.lay.WF ∧ (c.apply t).exts = t.exts ∧
-    ∀ idx, (c.apply t).byteAddr idx = t.byteAddr idx + c.shift := by
+    ∀ idx, InBox t.exts idx → (c.apply t).byteAddr idx = t.byteAddr idx + c.shift := by
   cases c with
-  | same => exact ⟨hwf, rfl, fun _ => by simp [Cast.apply, Cast.shift, TView.sameCast]⟩
+  | same => exact ⟨hwf, rfl, fun _ _ => by simp [Cast.apply, Cast.shift, TView.sameCast]⟩
   | member s o =>
-    obtain ⟨h1, h2, h3⟩ := hc
-    obtain ⟨a1, a2, _, _, a5⟩ := member_cast_addr t s o hesz h1 h2 hwf h3
+    obtain ⟨h1, h2⟩ := hc
+    obtain ⟨a1, a2, _, _, a5⟩ := member_cast_addr t s o hesz h1 h2 hwf
     exact ⟨a1, a2, a5⟩
   | reinterpret s =>
-    obtain ⟨h1, h2, h3⟩ := hc
-    obtain ⟨a1, a2, _, _, a5, _⟩ := reinterpret_addr t s hesz h1 hwf h3 h2
-    exact ⟨a1, a2, fun idx => by simp [Cast.apply, Cast.shift, a5 idx]⟩
+    obtain ⟨h1, h2⟩ := hc
+    obtain ⟨a1, a2, _, _, a5, _⟩ := reinterpret_addr t s hesz h1 hwf h2
+    exact ⟨a1, a2, fun idx hidx => by simp [Cast.apply, Cast.shift, a5 idx hidx]⟩
 
 /-! ### element_transformed -/
 
@@ -203,7 +207,7 @@ theorem transformed_writes_through {α : Type} (t : TView) (f : α → α) (g : 
 
 /-! ### composition with the view algebra -/
 
-theorem isFlattable_scale (v : View) (num den : Int) (hwf : v.lay.WF) (hz : ZeroOff v.lay) (hd : ScaleDiv v.lay num den)
+theorem isFlattable_scale (v : View) (num den : Int) (hwf : v.lay.WF) (hd : ScaleDiv v.lay num den)
     (hnum : 0 < num) (hden : 0 < den) (h : v.isFlattable = true) :
     (⟨0, v.lay.scale num den⟩ : View).isFlattable = true := by
   cases hv : v.lay with
@@ -212,10 +216,10 @@ theorem isFlattable_scale (v : View) (num den : Int) (hwf : v.lay.WF) (hz : Zero
     cases l with
     | nil => simp [View.isFlattable, hv] at h
     | cons d1 l =>
-      rw [hv] at hwf hz hd
+      rw [hv] at hwf hd
       simp only [View.isFlattable, hv, Bool.or_eq_true, decide_eq_true_eq, beq_iff_eq] at h
       simp only [View.isFlattable, scale_cons, Bool.or_eq_true, decide_eq_true_eq, beq_iff_eq]
-      obtain ⟨_, _, s1, _⟩ := scale_dim hwf.head (hz d (by simp)) (hd d (by simp)) hnum hden
+      obtain ⟨_, _, s1, _⟩ := scale_dim hwf.head (hd d (by simp)) hnum hden
       rcases h with h | h
       · left; rw [s1]; exact h
       · right; rw [h]
@@ -223,8 +227,8 @@ theorem isFlattable_scale (v : View) (num den : Int) (hwf : v.lay.WF) (hz : Zero
 /-- **casts commute with the view algebra.** For every same-rank cast `c` and every in-domain operation `op` of C01:
     casting the operated view and operating on the cast view give views of the same extents (the ones `op`'s
     documentation prescribes) whose elements at every index tuple are the same bytes — namely the projection of the
-    source element that `op`'s documented index mapping designates.  `Admissible` at both places is the code's own
-    assertions there. -/
+    source element that `op`'s documented index mapping designates.  Any index bases.  `Admissible` at both places is
+    the code's own assertions there. -/
 theorem casts_commute_with_ops (c : Cast) (op : Op) (t : TView) (hesz : 0 < t.esz) (hwf : t.v.lay.WF)
     (hd : op.InDomain t.v) (hc : c.Admissible t) (hc' : c.Admissible (t.map op.apply)) :
     let a := c.apply (t.map op.apply)     -- cast ∘ op
@@ -245,8 +249,8 @@ theorem casts_commute_with_ops (c : Cast) (op : Op) (t : TView) (hesz : 0 < t.es
     intro hf
     cases c with
     | same => exact hf
-    | member s o => exact isFlattable_scale t.v t.esz s hwf hc.2.2 (scaleDiv_of_dvd _ hc.2.1) hesz hc.1 hf
-    | reinterpret s => exact isFlattable_scale t.v t.esz s hwf hc.2.2 hc.2.1 hesz hc.1 hf
+    | member s o => exact isFlattable_scale t.v t.esz s hwf (scaleDiv_of_dvd _ hc.2) hesz hc.1 hf
+    | reinterpret s => exact isFlattable_scale t.v t.esz s hwf hc.2 hesz hc.1 hf
   obtain ⟨_, s2, s3⟩ := C01.op_refines op (c.apply t).v cb1 hdom
   have cb2' : (c.apply t).v.exts = t.v.exts := cb2
   rw [cb2'] at s2 s3
@@ -259,24 +263,23 @@ theorem casts_commute_with_ops (c : Cast) (op : Op) (t : TView) (hesz : 0 < t.es
     obtain ⟨p1, _⟩ := s3 idx hidx
     have ea : a.byteAddr idx = t.byteAddr (op.specMap t.exts idx) + c.shift := by
       show (c.apply (t.map op.apply)).byteAddr idx = _
-      rw [ca3]
+      rw [ca3 idx (by show InBox (op.apply t.v).exts idx; rw [r2]; exact hidx)]
       simp only [TView.byteAddr, TView.map]
       rw [q1]; rfl
     have eb : b.byteAddr idx = t.byteAddr (op.specMap t.exts idx) + c.shift := by
       show (c.apply t).org + (c.apply t).esz * (op.apply (c.apply t).v).addr idx = _
       rw [p1]
-      exact cb3 _
+      exact cb3 _ q2
     exact ⟨by rw [ea, eb], ea⟩
 
-/-- the code's assertions still hold after any operation of the view algebra: zero-basedness is an invariant of
-    the algebra (`zeroOff_op`), and the divisibility assertion is automatic when the target size divides the source
+/-- the code's assertions still hold after any operation of the view algebra when the target size divides the source
     size (always the case for `member_cast`, whose `static_assert` demands it) -/
 theorem admissible_after_op (c : Cast) (op : Op) (t : TView) (hc : c.Admissible t)
     (hdvd : ∀ s, c = .reinterpret s → s ∣ t.esz) : c.Admissible (t.map op.apply) := by
   cases c with
   | same => trivial
-  | member s o => exact ⟨hc.1, hc.2.1, zeroOff_op op t.v hc.2.2⟩
-  | reinterpret s => exact ⟨hc.1, scaleDiv_of_dvd _ (hdvd s rfl), zeroOff_op op t.v hc.2.2⟩
+  | member s o => exact ⟨hc.1, hc.2⟩
+  | reinterpret s => exact ⟨hc.1, scaleDiv_of_dvd _ (hdvd s rfl)⟩
 
 /-- `casts_commute_with_ops` with the admissibility of the operated view discharged -/
 theorem casts_commute_with_ops_dvd (c : Cast) (op : Op) (t : TView) (hesz : 0 < t.esz) (hwf : t.v.lay.WF)
@@ -310,7 +313,7 @@ theorem transformed_commutes_with_ops {α β : Type} (op : Op) (t : TView) (f : 
     its documented mapping. -/
 theorem reinterpret_n_composes (op : Op) (t : TView) (sU n : Int) (hesz : 0 < t.esz) (hs : 0 < sU) (hn : 0 ≤ n)
     (hwf : t.v.lay.WF) (hd : op.InDomain t.v)
-    (hz' : ZeroOff (op.apply t.v).lay) (hd' : ScaleDiv (op.apply t.v).lay t.esz sU) :
+    (hd' : ScaleDiv (op.apply t.v).lay t.esz sU) :
     ((t.map op.apply).reinterpretN sU n).exts = op.specShape t.exts ++ [⟨0, n⟩] ∧
     (∀ idx j, InBox (op.specShape t.exts) idx →
       ((t.map op.apply).reinterpretN sU n).byteAddr (idx ++ [j]) = t.byteAddr (op.specMap t.exts idx) + j * sU) ∧
@@ -318,16 +321,14 @@ theorem reinterpret_n_composes (op : Op) (t : TView) (sU n : Int) (hesz : 0 < t.
       Refines ((t.map op.apply).reinterpretN sU n).v (op2.apply ((t.map op.apply).reinterpretN sU n).v)
         (op2.specShape (op.specShape t.exts ++ [⟨0, n⟩])) (op2.specMap (op.specShape t.exts ++ [⟨0, n⟩]))) := by
   obtain ⟨r1, r2, r3⟩ := C01.op_refines op t.v hwf hd
-  obtain ⟨a1, a2, a3, _, _⟩ := reinterpret_n_addr (t.map op.apply) sU n hesz hs hn r1 hz' hd'
+  obtain ⟨a1, a2, a3, _, _⟩ := reinterpret_n_addr (t.map op.apply) sU n hesz hs hn r1 hd'
   have a2' : ((t.map op.apply).reinterpretN sU n).exts = op.specShape t.exts ++ [⟨0, n⟩] := by
     rw [a2]; show (op.apply t.v).exts ++ _ = _; rw [r2]; rfl
   refine ⟨a2', ?_, ?_⟩
   · intro idx j hidx
-    have hlen : idx.length = (op.apply t.v).lay.length := by
-      have := inBox_length hidx
-      have hx : op.specShape t.exts = (op.apply t.v).exts := r2.symm
-      rw [this, hx]; simp [View.exts, Layout.exts]
-    rw [a3 idx j hlen]
+    have hbox : InBox (t.map op.apply).exts idx := by
+      show InBox (op.apply t.v).exts idx; rw [r2]; exact hidx
+    rw [a3 idx j hbox]
     simp only [TView.byteAddr, TView.map]
     rw [(r3 idx hidx).1]
     rfl
@@ -378,22 +379,17 @@ theorem ctor_from_projection {β γ : Type} (es : List Ext) (hes : ∀ e ∈ es,
     have : (rowMajor es idx).toNat < (nElems es).toNat := by omega
     rw [if_pos this, g1]; rfl
 
-/-! ### non-vacuity: the hypotheses are satisfiable on a concrete strided, transposed sub-block -/
+/-! ### non-vacuity: the hypotheses are satisfiable on a concrete re-based, strided, transposed sub-block -/
 
-/-- a 4×6 array of 32-byte structs, `transposed().strided(2).sliced(1,3)`: zero-based, well formed, admissible -/
-example : ∃ t : TView, 0 < t.esz ∧ t.v.lay.WF ∧ ZeroOff t.v.lay ∧ (8 : Int) ∣ t.esz ∧ t.exts = [⟨0, 2⟩, ⟨0, 4⟩] ∧
-    (t.memberCast 8 16).byteAddr [1, 2] = t.byteAddr [1, 2] + 16 ∧ (Cast.member 8 16).Admissible t := by
-  refine ⟨TView.ofView 32 ((((⟨0, Layout.ofExts [⟨0, 4⟩, ⟨0, 6⟩]⟩ : View).transposed).strided 2).sliced 1 3), ?_⟩
-  refine ⟨by decide, ?_, ?_, ⟨4, rfl⟩, by decide +kernel, by decide +kernel, ⟨by decide, ⟨4, rfl⟩, ?_⟩⟩
-  · intro d hd
-    simp [TView.ofView, View.sliced, View.strided, View.transposed, Layout.transpose, Layout.ofExts, Layout.numElements, Dim.size, Ext.size] at hd
-    rcases hd with h | h <;> subst h <;> right <;> refine ⟨by decide, by decide, ?_, ?_⟩ <;> simp <;> decide
-  · intro d hd
-    simp [TView.ofView, View.sliced, View.strided, View.transposed, Layout.transpose, Layout.ofExts, Layout.numElements, Dim.size, Ext.size] at hd
-    rcases hd with h | h <;> subst h <;> rfl
-  · intro d hd
-    simp [TView.ofView, View.sliced, View.strided, View.transposed, Layout.transpose, Layout.ofExts, Layout.numElements, Dim.size, Ext.size] at hd
-    rcases hd with h | h <;> subst h <;> rfl
+/-- a `[2,6)×[-3,3)` array of 32-byte structs, `transposed().strided(3).sliced(-1,1)`: well formed, not zero-based -/
+example : ∃ t : TView, 0 < t.esz ∧ t.v.lay.WF ∧ (8 : Int) ∣ t.esz ∧ t.exts = [⟨-1, 1⟩, ⟨2, 6⟩] ∧
+    (t.memberCast 8 16).byteAddr [0, 3] = t.byteAddr [0, 3] + 16 ∧ (Cast.member 8 16).Admissible t := by
+  refine ⟨TView.ofView 32 ((((⟨0, Layout.ofExts [⟨2, 6⟩, ⟨-3, 3⟩]⟩ : View).transposed).strided 3).sliced (-1) 1), ?_⟩
+  refine ⟨by decide, ?_, ⟨4, rfl⟩, by decide +kernel, by decide +kernel, ⟨by decide, ⟨4, rfl⟩⟩⟩
+  have h0 := (C01.root_denotes [⟨2, 6⟩, ⟨-3, 3⟩] (by decide)).1
+  have h1 := (C01.op_refines Op.transposed ⟨0, _⟩ h0 (by decide +kernel)).1
+  have h2 := (C01.op_refines (Op.strided 3) _ h1 (by decide +kernel)).1
+  exact (C01.op_refines (Op.sliced (-1) 1) _ h2 (by decide +kernel)).1
 
 end C12
 end Multi
